@@ -7,6 +7,7 @@
 #include "solver.hpp"
 #include "mesh_reader.hpp"
 #include <filesystem>
+#include <map>
 #include <fstream>
 #include <algorithm>
 #include <unistd.h>
@@ -37,6 +38,7 @@ struct rsolver : public solver {
         for (const cell_ptr& c : cell_lst_) log << " " << c->get_id() << " " << (c->get_cell_type() ? c->get_cell_type()->global_type_id_ : -1) << " " << hx(c->get_area()) << " " << hx(c->get_volume())
                                                 << " " << hx(c->get_target_volume()) << " " << hx(c->get_pressure());
     }
+    void shift_ids(unsigned off){ for (const cell_ptr& c : cell_lst_) c->set_id(c->get_id() + off); max_cell_id_ += off; }
     unsigned iteration() const { return iteration_; }
     unsigned file_number() const { return file_number_; }
     double time() const { return time_integrator_ptr_->get_simulation_time(); }
@@ -75,6 +77,8 @@ int main(){
             t.sp.output_folder_path_ = out_dir;
             rsolver s(t.sp, cells, threads, string_stats != 0, false);
             s.evs = evs;
+            // VERIF_ID_OFFSET: the run starts with persistent ids far from zero (as late in a long simulation)
+            if (const char* off = std::getenv("VERIF_ID_OFFSET")) s.shift_ids((unsigned)std::atol(off));
             std::string exc;
             try { s.run(); } catch (const std::exception& e){ exc = e.what(); for (char& ch : exc) if (ch==' '||ch=='#'||ch=='|'||ch=='\n') ch='_'; }
             std::cout << "ITS" << s.log.str() << " # END " << s.iteration() << " " << hx(s.time()) << " " << s.file_number() << " " << s.get_cell_lst().size() << " " << (exc.empty() ? "-" : exc);
@@ -97,6 +101,10 @@ int main(){
             for (long n : numbered(out_dir + "/face_data")){
                 std::ifstream f(out_dir + "/face_data/result_" + std::to_string(n) + ".vtk"); std::string first; std::getline(f, first);
                 std::cout << " " << n << ":" << ((n >= 0 && first.rfind("# vtk", 0) == 0) ? 1 : 0);
+                // the owners the face file names: distinct values of its face_cell_id array with their number of faces
+                { std::string w; std::map<std::string, long> owners; bool found = false;
+                  while (f >> w) if (w == "face_cell_id"){ long comp, cnt; std::string ty; if (f >> comp >> cnt >> ty){ for (long k = 0; k < cnt * comp; k++){ std::string v; if (!(f >> v)) break; owners[v]++; } found = true; } break; }
+                  std::cout << ":"; if (!found) std::cout << "-"; bool fst = true; for (auto& kv : owners){ std::cout << (fst ? "" : ",") << kv.first << "x" << kv.second; fst = false; } }
             }
             std::cout << " # STATS ";
             std::string st;
